@@ -13,7 +13,7 @@ Proved here, for ALL statements of the typed AST (mutual structural recursion, n
                            necessary (`frag_alpha_needs_D5free`);
   * `walk_alpha_tables`  — tables reported by the walk, as a corollary of C01's pending exactness theorem (hypothesis explicit);
   * `datasetOfElem_ignores_as`, `colSpecOf_ignores_as` — what is and what is not true about the AS keyword for the walk;
-  * `dev_D7`, `dev_D7_analysis` — the code as found violates the property when an alias is renamed to the bare name of
+  * `dev_D7` — the code as found violates the property when an alias is renamed to the bare name of
                            another table; `fixed_D7`, `explicit_alias_wins` — the repaired alias map does not.
 Not proved (no column specification exists yet, `Props/C02.lean` is a placeholder): invariance of the END‑TO‑END COLUMN
 PAIRS, `spec_alpha_columns : FreshInj ρ s → Spec.colflow (renameStmt ρ s) = Spec.colflow s`, and its transfer to the walk.
@@ -251,9 +251,8 @@ theorem explicit_alias_wins (g : LGraph) (grp : List Holder.DObj) (a : String) (
     Holder.amGet (Holder.aliasMappingFixed g grp) a = some e.2 := by
   simp [Holder.amGet, Holder.aliasMappingFixed, List.reverse_append, List.find?_append, h]
 
-/-- the model in force (`Model/HolderOps.lean`) is the code as found; `patches/D7-model.patch` turns this into
-    `= Holder.aliasMappingFixed` together with the repair of /repo -/
-theorem model_alias_mapping : Holder.aliasMapping = Holder.aliasMappingOrig := rfl
+/-- the model in force (`Model/HolderOps.lean`) is the REPAIRED code (fix `D7-explicit-alias-hides-bare-table-name`) -/
+theorem model_alias_mapping : Holder.aliasMapping = Holder.aliasMappingFixed := rfl
 
 def d7Stmt : Stmt :=
   .insert .insertInto false ["tgt"] none
@@ -262,11 +261,11 @@ def d7Stmt : Stmt :=
         [.mk "join" (.table ["sch2", "tab"] (some "t9") false) (some (.bin "=" (.col ["q1"] "k") (.col ["t9"] "k"))) []]]
       none [] none) false
 
-/-- **D7 witness through the whole walk** (model in force = code as found): `insert into tgt select q1.x from sch1.foo q1
-    join sch2.tab t9 on q1.k = t9.k` reports `sch1.foo.x → tgt.x`; after `q1 ↦ tab` it reports `sch2.tab.x → tgt.x` -/
-theorem dev_D7_analysis :
+/-- **the D7 witness through the whole walk, repaired model**: `insert into tgt select q1.x from sch1.foo q1 join sch2.tab t9
+    on q1.k = t9.k` reports `sch1.foo.x → tgt.x` before and after `q1 ↦ tab` -/
+theorem analysis_D7_fixed :
     walkPairs {} d7Stmt = [("sch1.foo.x", "<default>.tgt.x")] ∧
-    walkPairs {} (renameStmt [("q1", "tab")] d7Stmt) = [("sch2.tab.x", "<default>.tgt.x")] := by decide +kernel
+    walkPairs {} (renameStmt [("q1", "tab")] d7Stmt) = [("sch1.foo.x", "<default>.tgt.x")] := by decide +kernel
 
 /-- the renaming `q1 ↦ tab` is injective and clashes with no local name and no qualifier (`freshInjLoose`), it is refused
     by `FreshInj` only because `tab` is the bare name of a table: exactly the D7 class -/
